@@ -393,6 +393,19 @@ func (g *Graph) classifyErrExpr(e ast.Expr, b *cfg.Block) (ExitClass, string) {
 			case "errors.New", "fmt.Errorf", "github.com/pkg/errors.New", "github.com/pkg/errors.Errorf":
 				return ExitErr, "returns new error"
 			}
+			// ctx.Err() is returned only after ctx.Done() fired in this code base (select case / explicit check)
+			if f.Name() == "Err" && len(x.Args) == 0 {
+				if r := recvExpr(x); r != nil {
+					if n, ok := types.Unalias(g.Info.TypeOf(r)).(*types.Named); ok && n.Obj().Pkg() != nil && n.Obj().Pkg().Path() == "context" && n.Obj().Name() == "Context" {
+						if b.Kind == cfg.KindSelectCaseBody {
+							return ExitErr, "returns ctx.Err() in a <-ctx.Done() case"
+						}
+					}
+				}
+			}
+		}
+		if g.inAnyErrArm(b, types.ExprString(e)) {
+			return ExitErr, "returns a non-nil-literal inside an error-handling arm"
 		}
 		return ExitMaybe, "returns call result"
 	case *ast.UnaryExpr:
@@ -512,6 +525,47 @@ func (g *Graph) inErrBranch(v *types.Var, b *cfg.Block) bool {
 	for _, arm := range g.nonNilArms(v) {
 		if len(g.predsOf(arm)) == 1 && g.BlockDom(arm, b) {
 			return true
+		}
+	}
+	return false
+}
+
+// inAnyErrArm: block b lies in an arm that is entered only when some error-typed variable is
+// non-nil, or when an expression printing as exprText was compared != nil.
+func (g *Graph) inAnyErrArm(b *cfg.Block, exprText string) bool {
+	for _, cb := range g.live {
+		c := condOf(cb)
+		if c == nil {
+			continue
+		}
+		if tv, ok := g.Info.Types[c]; !ok || !isBool(tv.Type) {
+			continue
+		}
+		check := func(arm *cfg.Block) bool {
+			return len(g.predsOf(arm)) == 1 && g.BlockDom(arm, b)
+		}
+		t, f := g.condFacts(c)
+		for _, v := range t {
+			if isErrorType(v.Type()) && check(cb.Succs[0]) {
+				return true
+			}
+		}
+		for _, v := range f {
+			if isErrorType(v.Type()) && check(cb.Succs[1]) {
+				return true
+			}
+		}
+		// `X != nil` / `X == nil` on an arbitrary expression X
+		if be, ok := ast.Unparen(c).(*ast.BinaryExpr); ok && (be.Op == token.NEQ || be.Op == token.EQL) && isNilIdent(g.Info, be.Y) {
+			if types.ExprString(be.X) == exprText && isErrorType(g.Info.TypeOf(be.X)) {
+				arm := cb.Succs[0]
+				if be.Op == token.EQL {
+					arm = cb.Succs[1]
+				}
+				if check(arm) {
+					return true
+				}
+			}
 		}
 	}
 	return false
